@@ -966,6 +966,16 @@ int vorbis_encode_setup_managed(vorbis_info *vi,
   double tnominal;
   if(rate<=0) return OV_EINVAL;
 
+  /* where given, the three rates must be ordered; the rate manager
+     relies on min<=nominal<=max (same invariants as
+     OV_ECTL_RATEMANAGE2_SET enforces) */
+  if(min_bitrate>0 && max_bitrate>0 && min_bitrate>max_bitrate)
+    return OV_EINVAL;
+  if(nominal_bitrate>0){
+    if(min_bitrate>0 && min_bitrate>nominal_bitrate)return OV_EINVAL;
+    if(max_bitrate>0 && max_bitrate<nominal_bitrate)return OV_EINVAL;
+  }
+
   ci=vi->codec_setup;
   hi=&ci->hi;
   tnominal=nominal_bitrate;
